@@ -69,7 +69,10 @@ STRINGS = ['', 'a', 'a' * 255, 'a' * 256, 'é' * 127, 'é' * 128, '✈' * 85,
            '\ud800', 'ok\udfff', 'AMQP', '0', 'é', 'caf\udcc3\udca9',
            'report-\udcff.csv', '\udc80', '\ufeffbom', '\ufeff']
 BYTESLIKE = [b'', b'abc', b'\xff\xfe', bytearray(b''), bytearray(b'abc'),
-             bytearray(b'\xce' * 300), memoryview(b'abc')]
+             bytearray(b'\xce' * 300), memoryview(b'abc'),
+             memoryview(b'GOODBADFE\x01bSxy').cast('H'),
+             memoryview(b'abcdefgh').cast('B', (2, 4)),
+             memoryview(b'abcdefgh').cast('I')]
 
 
 class _Obj:
